@@ -164,6 +164,7 @@ ConHolds(r, i) ==
     [] r.con.kind = "gattr" -> GAttr[s.gid] = r.con.val
     [] r.con.kind = "user"  -> s.user = r.con.val
     [] r.con.kind = "user2" -> s.user2 = r.con.val
+    [] r.con.kind = "userle" -> s.user <= r.con.val         \* an ordering test (LESS_EQ): true also when both sides are equal
     [] r.con.kind = "feat"  -> cfeats[r.con.f] = r.con.val
 
 \* precedence: longer sort key first, then earlier rule
